@@ -9,6 +9,11 @@ are read back with the stdlib `sqlite3` module and compared
       (exactly one row per exchange, in order, exact bytes, exception, pre-state snapshot, times, mode) and
   (b) with the rows the Lean model leaves for the same history under a *random* schedule of producer / consumer steps.
 A `Could not log messages to database` warning is a completeness violation.
+
+The widened part of the tie lives in `harness/lib/c11x.py` (case families `multi`: several producers behind the client
+mutex incl. the real tester-present worker, cancellations of single tasks, injected write faults; `tables`: programs of
+DBHandler API calls, all tables read back, foreign keys; `life`: a real UDSScanner through entry_point(), the
+scanner-level implicit-logging switch); those cases run first.
 """
 from __future__ import annotations
 
@@ -29,11 +34,12 @@ PROOF = "Gallia.Proofs.C11"
 DRIVER = "c11"
 ORACLE = False
 ASSUMPTIONS = [
-    "sqlite durability, the file system and aiosqlite's worker thread are trusted (rows are read back after disconnect())",
-    "asyncio.Queue is FIFO and put() on an unbounded queue does not suspend; join() returns when every put() was matched by task_done()",
+    "sqlite durability, the file system and aiosqlite's worker thread are trusted (rows are read back after disconnect()); a statement handed to the connection thread is executed even when the awaiting task is cancelled meanwhile (aiosqlite 0.22 contract, modelled)",
+    "asyncio.Queue is FIFO and put() on an unbounded queue does not suspend; join() returns when every put() was matched by task_done(); asyncio.Lock is FIFO and release() only schedules the first waiter (the task that releases runs on to its next real suspension point) - what makes 'exchange ends, mutex released, row queued, state updated' one atomic step; the absence of awaits in that stretch is regenerated from the AST (finally_is_atomic, queue_unbounded)",
     "wall-clock timestamps (datetime.now) are non-decreasing during a run",
-    "one producer at a time (the scanner task); the cyclic tester-present task is not part of the histories",
-    "recurring sqlite OperationalErrors (retry choice of the model) are not injected by the correspondence run",
+    "a call of ECU.request that is cancelled while it waits for the client mutex leaves a row (no reply, no exception) although nothing was transmitted: modelled as the code does it (Call.granted = false), not counted as a violation - the property speaks about requests that were put on the wire",
+    "write faults are OperationalErrors raised by execute / commit of the writer task, any finite number per row (injected into the real connection object); faults of the statements the run task executes itself (insert_run_meta, insert_scan_run, ...: no retry in the code, the exception reaches the caller) and recurring faults (join() never returns: theorem join_blocks_while_writes_fail, the code's own TODO) are outside the tie",
+    "the writer task has had its first step before disconnect() (in the lifecycle insert_run_meta follows connect() and suspends); the tables error_log / ecu, which DBHandler never writes, are outside the model",
 ]
 
 # ------------------------------------------------------------------------------------------------------------------
@@ -645,6 +651,9 @@ def _shrink(case, idx, bad_key):
 def _eval(item):
     """worker: run one case against the real stack, judge it, shrink a failing one"""
     label, case = item
+    if case.get("kind"):
+        from lib import c11x
+        return c11x.evaluate(label, case)
     res = run_case(case)
     j = judge(res, case)
     if j is not None:
@@ -658,6 +667,8 @@ def _eval(item):
 
 
 def book(ctx, label, case, res, j):
+    if case.get("kind"):
+        return book_x(ctx, label, case, res, j)
     ctx.ev()
     ctx.kind("case:" + label)
     for o in res["obs"]:
@@ -676,8 +687,44 @@ def book(ctx, label, case, res, j):
     return True
 
 
+def book_x(ctx, label, case, res, j):
+    ctx.ev()
+    ctx.kind("case:" + label)
+    for o in res.get("obs", []):
+        ctx.kind("out:" + o["out"], "req:" + o["req_cls"], "resp:" + o.get("resp_cls", "none"))
+    ctx.kind("end:" + res["end"].split(":")[0])
+    ctx.nontrivial(json.dumps(case, sort_keys=True, default=str))
+    ctx.traces_validated += 1
+    if j is not None:
+        key, text, _ = j
+        if case["kind"] == "life":
+            what = "scan_result rows of a UDSScanner run through entry_point(): " + text
+            impl = {"rows": res["rows"], "flag_events": res["flag_events"], "warnings": res["warnings"][:5], "end": res["end"]}
+            model = {"calls": [{k: v for k, v in c.items() if k in ("task", "k", "req_pdu", "scanner_flag", "implicit", "analyze", "out")}
+                               for c in res["calls"]]}
+            site = "UDSScanner.setup / implicit_logging setter / ECU._request"
+        elif case["kind"] == "multi":
+            what = "scan_result rows differ from the exchanges on the wire (several producers): " + text
+            impl = {"rows": res["rows"], "events": res["events"], "warnings": res["warnings"][:5], "end": res["end"]}
+            model = {"calls": res["calls"]}
+            site = "ECU._request / UDSClient._request (mutex) / DBHandler._executor_func"
+        else:
+            what = "tables of the scan database after disconnect(): " + text
+            impl = {"tables": res["tables"], "refused": res["refused"], "warnings": res["warnings"][:5], "end": res["end"]}
+            model = {"accepted": res.get("accepted")}
+            site = "DBHandler (insert_* / _executor_func / disconnect)"
+        ctx.disagree("c11:" + key, what, case, impl=impl, model=model, spec_violated=True, site=site)
+        return False
+    return True
+
+
 def compare_model(ctx, pending):
     """pending: list of (case, res) that satisfied the property; the model must leave the same rows"""
+    from lib import c11x
+    c11x.compare_multi(ctx, [(c, r) for (c, r) in pending if c.get("kind") == "multi"])
+    c11x.compare_tables(ctx, [(c, r) for (c, r) in pending if c.get("kind") == "tables"])
+    c11x.compare_life(ctx, [(c, r) for (c, r) in pending if c.get("kind") == "life"])
+    pending = [(c, r) for (c, r) in pending if not c.get("kind")]
     batch, index = [], []
     for case, res in pending:
         ls, n_done = model_lines(case, res, ctx.rng)
@@ -860,6 +907,11 @@ def gen_cases(ctx):
     K = env["K"]
     rng = ctx.rng
     cases = []
+    # 0. several producers behind the client mutex, write faults, the other tables (harness/lib/c11x.py)
+    from lib import c11x
+    cases += c11x.gen_life(ctx, K)
+    cases += c11x.gen_multi(ctx, K)
+    cases += c11x.gen_tables(ctx)
     # 1. every kind x every outcome class, alone (exhaustive over the two tables)
     for ki in range(len(K)):
         for oc in OUTCOMES:
@@ -883,29 +935,6 @@ def gen_cases(ctx):
             cases.append(("cancel-at-each-await", {"plans": pre + [last], "crash": {"how": "cancel-in", "after": len(pre), "at": ["w", j]}}))
         for j in range(len(last["script"]) + 1):
             cases.append(("cancel-at-each-await", {"plans": pre + [last], "crash": {"how": "cancel-in", "after": len(pre), "at": ["r", j]}}))
-    # 4. seeded histories of length 1..N with a crash point between exchanges / inside one / none
-    N = ctx.pick(8, 24)
-    n_hist = (3000 if ctx.widened else 900) if ctx.quick else 20000
-    for _ in range(n_hist):
-        n = rng.randint(1, N)
-        plans = []
-        for _ in range(n):
-            oc = rng.choice(OUTCOMES[:16] * 3 + ["positive"] * 20 + ["negative"] * 8)
-            plans.append(_plan(rng, K, rng.randrange(len(K)), oc, implicit=rng.random() < 0.85,
-                               yields=rng.choice([0, 0, 0, 1, 2])))
-        how = rng.choice(["none", "none", "raise", "cancel", "cancel-in", "fatal"])
-        crash = None
-        if how in ("raise", "cancel"):
-            crash = {"how": how, "after": rng.randint(0, n)}
-        elif how == "cancel-in":
-            k = rng.randrange(n)
-            p = plans[k]
-            at = rng.choice([["w", 0]] + [["r", j] for j in range(len(p["script"]) + 1)])
-            crash = {"how": "cancel-in", "after": k, "at": at}
-        elif how == "fatal":
-            k = rng.randrange(n)
-            plans[k] = _plan(rng, K, plans[k]["ki"], rng.choice(["raise-read", "raise-write"]), implicit=plans[k]["implicit"])
-        cases.append(("history", {"plans": plans, "crash": crash}))
     # 5. bursts: many exchanges without any yield, then disconnect at once (queue full at join)
     for _ in range(ctx.pick(10, 60)):
         n = rng.randint(20, ctx.pick(60, 300))
@@ -930,6 +959,29 @@ def gen_cases(ctx):
     for n in (1, 3, 20):
         plans = [_plan(rng, K, 10, "positive", tags=None) for _ in range(n)]
         cases.append(("cancel-during-disconnect", {"plans": plans, "crash": {"how": "cancel-join", "after": n}}))
+    # 4. (last: this is the part the time budget may cut) seeded histories of length 1..N with a crash point between exchanges / inside one / none
+    N = ctx.pick(8, 24)
+    n_hist = (3000 if ctx.widened else 900) if ctx.quick else 20000
+    for _ in range(n_hist):
+        n = rng.randint(1, N)
+        plans = []
+        for _ in range(n):
+            oc = rng.choice(OUTCOMES[:16] * 3 + ["positive"] * 20 + ["negative"] * 8)
+            plans.append(_plan(rng, K, rng.randrange(len(K)), oc, implicit=rng.random() < 0.85,
+                               yields=rng.choice([0, 0, 0, 1, 2])))
+        how = rng.choice(["none", "none", "raise", "cancel", "cancel-in", "fatal"])
+        crash = None
+        if how in ("raise", "cancel"):
+            crash = {"how": how, "after": rng.randint(0, n)}
+        elif how == "cancel-in":
+            k = rng.randrange(n)
+            p = plans[k]
+            at = rng.choice([["w", 0]] + [["r", j] for j in range(len(p["script"]) + 1)])
+            crash = {"how": "cancel-in", "after": k, "at": at}
+        elif how == "fatal":
+            k = rng.randrange(n)
+            plans[k] = _plan(rng, K, plans[k]["ki"], rng.choice(["raise-read", "raise-write"]), implicit=plans[k]["implicit"])
+        cases.append(("history", {"plans": plans, "crash": crash}))
     return cases
 
 
@@ -937,12 +989,17 @@ def run(ctx):
     _env()
     ctx.rule = ("case = history of exchanges (request kind, transport script, tags, implicit switch, retries, yields) + crash "
                 "point; distinct = distinct case JSON; every case has >= 1 exchange on the wire; non-trivial = all of them "
-                "(each runs the real ECU + DBHandler + sqlite file and is read back)")
+                "(each runs the real ECU + DBHandler + sqlite file and is read back); the families multi / tables / life of "
+                "harness/lib/c11x.py: case = tasks with per-call reply scripts and latencies + cancellations + write faults, "
+                "resp. sessions of API calls + cut point + faults, resp. scanner options + constructor / main() steps")
     _state_corr(ctx)
     _attrs_corr(ctx)
     cases = gen_cases(ctx)
     ctx.exhaustive_parts.append(f"every request kind ({len(_env()['K'])}) x every outcome class ({len(OUTCOMES)}) as a single-exchange history")
     ctx.exhaustive_parts.append("cancellation at every write / read await of multi-await exchanges (pending loop, retries)")
+    ctx.exhaustive_parts.append("UDSScanner through entry_point(): the switch set in the constructor (5 patterns) x ping x properties x tester-present x ecu_reset")
+    ctx.exhaustive_parts.append("every single-row write-fault pattern (execute / commit, 1..2 failures) on a burst of 3 queued rows")
+    ctx.exhaustive_parts.append("the lifecycle order of DBHandler API calls (with and without discovery) cancelled at every awaited statement")
     ctx.exhaustive_parts.append("cancellation requested (not yet delivered) at every read of the last exchange of small histories, and at the end of bursts long enough to fill the write queue if it had a capacity")
     budget = ctx.pick(60, 780)
     pending = []
@@ -967,6 +1024,13 @@ def run(ctx):
 
 def replay(ctx, rec):
     case = rec.get("case") or rec
+    if case.get("kind") in ("multi", "tables", "life"):
+        from lib import c11x
+        _env()
+        res = c11x.run_case(case)
+        j = c11x.judge(res, case)
+        print(json.dumps({k: v for k, v in res.items() if k not in ("obs",)} | {"verdict": j}, indent=1, default=str))
+        return 1 if j is not None else 0
     if "plans" not in case:
         print(json.dumps(rec, indent=1))
         return 0
@@ -979,20 +1043,34 @@ def replay(ctx, rec):
 
 
 MANIFEST = {
-    "level_text": ("Lean 4 theorems over an executable model of the logging path (ECU._request finally-block, state snapshot "
-                   "before update_state, execute queue with a single consumer, disconnect = join; cancel) under an interleaving "
-                   "semantics with cancellation at any point: for every history and every schedule the rows left after "
-                   "disconnect are exactly the rows of the performed exchanges, once each, in order, byte-exact, with the "
-                   "pre-request state, send <= receive time, implicit/emphasized as requested, nothing while implicit logging is "
-                   "off; every attribute shape of the live request/response classes maps to JSON. Tied to the code by a "
-                   "correspondence run of the real ECU + DBHandler on a temporary sqlite file over a scripted transport: every "
-                   "request kind x outcome class, cancellation at every await, seeded histories with crash points, rows read "
-                   "back with sqlite3."),
-    "level_note": ("Trusted: Lean kernel, sqlite/aiosqlite/file system durability, asyncio.Queue contract, wall clock "
-                   "monotonicity, the harness. The inner retry loop's outcome is an input of the model (C04 owns it); recurring "
-                   "OperationalErrors are modelled (retry choice) but not injected. The producer's put never suspends because the "
-                   "write queue is unbounded: regenerated from the AST of DBHandler.connect on every run (theorem queue_unbounded), "
-                   "a bounded queue is shown to lose rows (witness example)."),
-    "technique": "Lean 4 proof (invariant over an interleaving semantics) + regenerated attribute-shape table + differential correspondence against the real ECU/DBHandler on sqlite",
+    "level_text": ("Lean 4 theorems over executable models of the whole logging path. (1) ECU._request finally-block (state snapshot "
+                   "before update_state), execute queue with a single consumer, disconnect = join; cancel, under an interleaving "
+                   "semantics with cancellation at any point and write failures (OperationalError at execute / at commit, any "
+                   "number of times, any row): for every history and every schedule the rows left after disconnect are exactly the "
+                   "rows of the performed exchanges, once each, in order, byte-exact, with the pre-request state, send <= receive "
+                   "time, implicit/emphasized as requested, nothing while implicit logging is off (rows_eq_history_under_faults; "
+                   "join_returns_after_finite_faults). (2) Several producers behind the client mutex (scanner task, further scanner "
+                   "coroutines, cyclic tester-present task; FIFO lock, cancellation of any task while idle / waiting / on the wire): "
+                   "rows in completion order = transmission order, one per call, pre-state folded over the calls of all tasks "
+                   "(rows_order_multi, completed_in_transmission_order, mutex_exclusive). (3) The other tables (run_meta, address, "
+                   "scan_run, discovery_*, session_transition) with ids, foreign keys, the shared transaction and the handler "
+                   "object: for every program of API calls, every schedule and every cancellation point all references resolve after "
+                   "disconnect and in what is durable at any time, ids are unique, the writer never meets a constraint violation, "
+                   "and the tables do not depend on the writer's interleaving (foreign_keys_resolve, writer_never_dies, "
+                   "primary_keys_unique, tables_independent_of_writer_schedule). (4) The scanner-level implicit-logging switch: "
+                   "with the statement order of UDSScanner.setup() regenerated from the AST every request is recorded exactly "
+                   "when the switch is on (setup_requests_follow_switch). Tied to the code by a correspondence run of the real ECU "
+                   "+ DBHandler + sqlite file: every request kind x outcome class, cancellation at every await, seeded "
+                   "histories; 3 concurrent tasks incl. the real tester-present worker over scripted latencies with cancellations "
+                   "and injected OperationalErrors; API-call programs in any order, cut at every awaited statement, two sessions per "
+                   "file, all tables read back + PRAGMA foreign_key_check; a real UDSScanner through entry_point()."),
+    "level_note": ("Trusted: Lean kernel, sqlite/aiosqlite/file system durability, asyncio.Queue / asyncio.Lock contracts, wall "
+                   "clock monotonicity, the harness. The inner retry loop's outcome is an input of the model (C04 owns it). The "
+                   "atomicity of the finally-block, the unbounded queue, the shape of the writer's retry loop, the awaited steps of "
+                   "every DBHandler API call, the keys of the live DB_SCHEMA and the statement order of UDSScanner.setup() are "
+                   "regenerated from the working tree on every run and compared in Lean (finally_is_atomic, queue_unbounded, "
+                   "writer_retries_in_place, api_steps_agree, schema_keys_agree, switch_anchors). Recurring write faults block join() "
+                   "forever (proved, the code's own TODO); a disconnect() interrupted in join() is the known finding cancel-join."),
+    "technique": "Lean 4 proof (invariants over interleaving semantics: producer/consumer, FIFO mutex with several producers, transactional tables) + regenerated anchor tables + differential correspondence against the real ECU/DBHandler/UDSScanner on sqlite with fault injection",
     "design_ref": "DESIGN.md section 7, C11",
 }
